@@ -42,6 +42,16 @@ func init() {
 	badPairs[[2]string{"ident", "() block"}] = true
 	badPairs[[2]string{"|", "|"}] = true
 	badPairs[[2]string{"/", "*"}] = true
+	// other pairs which would be tokenized differently without a separator
+	badPairs[[2]string{"number", "%"}] = true
+	badPairs[[2]string{"-", "-"}] = true
+	badPairs[[2]string{"#", "-"}] = true
+	for _, a := range []string{"number", "#", "@", "-"} {
+		badPairs[[2]string{a, "-->"}] = true
+	}
+	badPairs[[2]string{"/", "*="}] = true
+	badPairs[[2]string{"|", "|="}] = true
+	badPairs[[2]string{"|", "||"}] = true
 }
 
 func Serialize(l []Token) string {
